@@ -4,6 +4,7 @@ import (
 	"encoding/json"
 	"fmt"
 	"net/http"
+	"regexp"
 	"sort"
 	"strings"
 
@@ -136,6 +137,10 @@ func (n *c13Node) JSON() string {
 			name, params = "querystring.Filter", fmt.Sprintf(`"name":"k","value":%q`, n.fval)
 		case "method":
 			name, params = "method.Filter", fmt.Sprintf(`"method":%q`, n.fval)
+		case "port":
+			name, params = "port.Filter", fmt.Sprintf(`"port":%s`, n.fval)
+		case "header_regex":
+			name, params = "header.RegexFilter", fmt.Sprintf(`"header":"X-Cond","regex":%q`, n.fval)
 		}
 		els := ""
 		if n.els != nil {
@@ -184,6 +189,11 @@ type c13Msg struct {
 
 func (n *c13Node) cond(phase string, m *c13Msg) bool {
 	switch n.fkind {
+	case "port":
+		return n.fval == "80" // the exchanges' URLs are http and name no port
+	case "header_regex":
+		ok, _ := regexp.MatchString(n.fval, m.reqCond) // the REQUEST's header, in both phases
+		return m.reqCond != "" && ok
 	case "url_query":
 		return m.query == n.fval
 	case "querystring":
@@ -291,8 +301,12 @@ func genC13Tree(k *kernel.K, depth int, next *int, branch string) *c13Node {
 		}
 	case "filter":
 		n.hasScope, n.scope = scope()
-		n.fkind = []string{"url_query", "header", "querystring", "method"}[w.Draw(4)]
+		n.fkind = []string{"url_query", "header", "querystring", "method", "port", "header_regex"}[w.Draw(6)]
 		switch n.fkind {
+		case "port":
+			n.fval = []string{"80", "8080"}[w.Draw(2)]
+		case "header_regex":
+			n.fval = []string{"^a$", "^[bc]$"}[w.Draw(2)]
 		case "url_query":
 			n.fval = []string{"k=v", "k=w"}[w.Draw(2)]
 		case "header":
